@@ -56,4 +56,23 @@ case("F-I", "C01", "typechecks",
 case("F-M", "C09", "tparam-count",
      "package src\n\ntype Base[T any] interface {\n\tGet() T\n}\n\ntype Alias[T any] = Base[T]\n", cfg(["Alias"], skip_ensure=True),
      note="generic alias: the mock loses the type parameter")
+
+def fcase(fid, prop, oracle, files, cfg_, scenario, note):
+    c = {"property": prop, "oracle": oracle, "mod_path": "example.com/w", "files": files, "src_dir": "src",
+         "src_path": "example.com/w/src", "src_name": "src", "config": cfg_, "note": note, "labels": ["known:" + fid], "scenario": scenario}
+    d = "/verif/known/" + fid
+    os.makedirs(d, exist_ok=True)
+    json.dump(c, open(d + "/case.json", "w"), indent=1)
+
+fcase("F-J", "C17", "out-untouched",
+      {"go.mod": GOMOD, "src/a_src.go": "package src\n\ntype Doer interface {\n\tDo(a, b, c string, n int) (string, error)\n\tMore(x []byte) error\n}\n"},
+      cfg(["Doer"]), {"kind": "fault", "fault": "fsize", "prior": "good", "out_rel": "src/mock_gen.go", "fsize_blocks": 1},
+      "RLIMIT_FSIZE of 512 bytes: os.WriteFile truncates the existing file and fails after 512 bytes")
+fcase("F-K", "C15", "fixed-point",
+      {"go.mod": GOMOD,
+       "p1/p1.go": "package p1\n\ntype T struct{ A int }\n", "p2/p2.go": "package p2\n\ntype T struct{ A int }\n",
+       "src/a_src.go": "package src\n\nimport al \"example.com/w/p1\"\n\ntype Doer interface {\n\tDo(x al.T) error\n\tSecond\n}\n",
+       "src/z_src.go": "package src\n\nimport al \"example.com/w/p2\"\n\ntype Second interface {\n\tDo2(y al.T) error\n}\n"},
+      cfg(["Doer"]), {"kind": "history", "out_name": "m_moq.go", "actions": ["gen", "gen"]},
+      "p1 and p2 are both aliased al in two source files; the generated file sorts between them, so alias harvesting differs on the second run")
 print("ok")
